@@ -218,23 +218,30 @@ def r6_cancel_bookkeeping(ctx):
     has_op = 'self._tree.add_node'   # the node expression is long: recognise the atom by its suffix
     n_checked = 0
     import itertools
-    sps = symex.func_sym_paths(sop)
     for op in ('*v', '*-'):
         bad = set()
-        for sp in sps:
+        # the function specialised for this operator (cell text := the operator, constant tables folded): an if-chain over the
+        # operators and a table of "closing" operators are the same thing
+        spc = F._Specialise(ctx, sop, content_p, ast.Constant(value=op))
+        body = [ast.fix_missing_locations(spc.visit(clone(s_))) for s_ in docstring_free(sop.body)]
+        for sp in symex.sym_paths(body, limit=20000, fi=sop):
             if sp.end == 'raise':
                 continue
-            fm = sp.condition()
+
+            def decided(atom):
+                try:
+                    node_ = ast.parse(atom, mode='eval').body
+                except SyntaxError:
+                    return None
+                ok_, v_ = ctx.ce.try_eval(node_, sop.module, sop.cls, {})
+                return ('const', bool(v_)) if ok_ else None
+            fm = G.map_atoms(sp.condition(), decided)
             ats = G.atoms_of(fm)
-            if not any(a == eq(op) for a in ats):
-                continue
+            if len(ats) > 12:
+                raise AnalysisError(f'{sop.loc}: too many conditions on a path of the spine-operator cell')
             for bits in itertools.product([False, True], repeat=len(ats)):
                 val = dict(zip(ats, bits))
                 if not G.evaluate(fm, val):
-                    continue
-                if not val.get(eq(op), False):
-                    continue
-                if any(val.get(eq(o), False) for o in ('*-', '*+', '*^', '*v', '*x') if o != op):
                     continue
                 none_atoms = [a for a in ats if a.endswith('.last_spine_operator_node is None')]
                 has = none_atoms and not val[none_atoms[0]]
@@ -255,6 +262,7 @@ def r6_cancel_bookkeeping(ctx):
     add = ctx.prog.func(f'{N.DOCUMENT}.MultistageTree.add_node')
     shared_tok = []
     n_nodes = 0
+    sps = symex.func_sym_paths(sop)
     for sp in sps:
         for e in sp.events:
             c = e.expr if isinstance(e.expr, ast.Call) else None
